@@ -268,8 +268,13 @@ pub fn cmd_matrix(a: &[String]) {
                 let base = normalise_pause(&out.r.chain.observe());
                 out.step(&Op::Restore);
                 let k = rng.below(hist.len() as u64) as usize;
+                let mut inserted = false;
                 for (i, op) in hist.iter().enumerate() {
-                    if i == k {
+                    // the identity is about a cycle around an *unpaused* hub: if the history itself
+                    // has the owner pause it, the cycle is inserted at the next unpaused point
+                    let paused_now = crate::oracle::snap(&out.r.chain).paused;
+                    if i >= k && !inserted && !paused_now {
+                        inserted = true;
                         out.step(&tx(OWNER, HUB, Call::Hub(HubMsg::UParams(None, None, None, None, Some(true), None))));
                         out.step(&tx(5, HUB, Call::Hub(HubMsg::Check))); // blocked
                         out.step(&tx(OWNER, HUB, Call::Hub(HubMsg::UParams(None, None, None, None, Some(false), None))));
